@@ -17,12 +17,13 @@ from .common import (find_calls, one_call, comparisons, call_outcomes, follow_va
                      uses_of_local)
 
 EXPLANATION = (
-    "Decides structural necessary conditions of C02 from MIR: (R1) ranger::Store::put rejects iff new<=parent "
-    "(truth table over Less/Equal/Greater) and prunes iff new>=child; Record order is (timestamp, hash) lexicographic; "
-    "(R2) the parent lookup does not filter deletion markers and can look up the empty key; (R3) exclusive end bounds of "
-    "variable-length key prefixes are computed by a successor that can shorten; (R4) prefix-removal bounds derive from the "
-    "namespace/author/key of the entry inserted; (R5) no store mutation precedes a NotInserted return. NOT decided: "
-    "commutativity/idempotence over all permutations as such (value-level)."
+    'Decides structural necessary conditions of C02 from MIR: (R1) ranger::Store::put evaluated on parent sequences with '
+    'the storage trait answered by an oracle: it rejects iff new<=parent (truth table over Less/Equal/Greater) and prunes '
+    'iff new>=child; Record order is (timestamp, hash) lexicographic; (R2) the parent lookup does not filter deletion '
+    'markers and can look up the empty key; (R3) exclusive end bounds of variable-length key prefixes are computed by a '
+    'successor that can shorten; (R4) prefix-removal bounds derive from the namespace/author/key of the entry inserted; '
+    '(R5) no store mutation precedes a NotInserted return. NOT decided: commutativity/idempotence over all permutations as '
+    'such (value-level).'
 )
 ASSUMPTIONS = [
     "redb tuple key order equals component-wise byte order",
